@@ -313,7 +313,7 @@ def oracle_c08(case, obs):
 def ref_serfn(f, v):
     """reference semantics of the serializer library: (ok, value)"""
     name = f[0]
-    isint = isinstance(v, int) and not isinstance(v, bool)
+    isint = isinstance(v, int) and not isinstance(v, bool) and id(v) not in progs.HOSTILE_ID
     if name == "id":
         return True, v
     if name == "const":
